@@ -3,7 +3,7 @@
    The float parser [pf] is a Section variable. *)
 From Coq Require Import Setoid List NArith ZArith Bool Lia.
 From Coq Require Import ZifyBool ZifyNat ZifyN.
-From SF Require Import Base.Prelude Base.Utf8 Core.Events Json.Parse Json.ParseSafety Json.ChunkProofs.
+From SF Require Import Base.Prelude Base.Utf8 Core.Events Core.EventsProofs Json.Parse Json.ParseSafety Json.ChunkProofs.
 Import ListNotations.
 Open Scope Z_scope.
 Ltac Zify.zify_post_hook ::= Z.div_mod_to_equations.
@@ -2705,6 +2705,518 @@ Proof.
   - apply peq_refl.
 Qed.
 
+(* ====================================================================== *)
+(* Part 4: the events of one top-level value are the events of one tree.  *)
+(* Ghost state: the open containers with the subtrees completed so far.   *)
+(* ====================================================================== *)
+Inductive frame :=
+| FA (done : list tree)                                       (* open array, elements in reverse *)
+| FO (done : list (bytes * bool * tree)) (key : option bytes). (* open object, pending key *)
+
+Definition fret (f : frame) : Z := match f with FA _ => jArrNext | FO _ _ => jDictFieldStateEnd end.
+Definition takes (f : frame) : Prop := match f with FO _ None => False | _ => True end.
+
+Definition fevents (f : frame) : list event :=
+  match f with
+  | FA done => EArrStart (-1) BAny :: flatten_elems (rev done)
+  | FO done key => EObjStart (-1) BAny :: flatten_members (rev done) ++
+                   match key with Some k => [EKeyRef k] | None => [] end
+  end.
+(* innermost frame first *)
+Fixpoint oevents (G : list frame) : list event :=
+  match G with [] => [] | f :: G' => oevents G' ++ fevents f end.
+
+Definition rets (G : list frame) : list Z := map fret G ++ [jStart].
+
+Definition leafst (c : Z) : Prop := c = jNull \/ c = jTrue \/ c = jFalse \/ c = jString \/ c = jNumber.
+
+Definition cur_frame (c : Z) (f : frame) : Prop :=
+  match f with
+  | FA _ => c = jArr \/ c = jArrValue \/ c = jArrNext
+  | FO _ None => c = jDict \/ c = jDictNextField \/ c = jDictField \/ c = jDictFieldStateEnd
+  | FO _ (Some _) => c = jDictFieldValueSep \/ c = jDictFieldValue
+  end.
+
+Definition Frames (p : jparser) (G : list frame) : Prop :=
+  (G = [] /\ jp_cur p = jStart /\ jp_states p = []) \/
+  (exists f G', G = f :: G' /\ cur_frame (jp_cur p) f /\ jp_states p = rets G' /\ Forall takes G') \/
+  (leafst (jp_cur p) /\ jp_states p = rets G /\ Forall takes G).
+
+Lemma rets_nonempty : forall G, rets G <> [].
+Proof. intros G. unfold rets. destruct (map fret G); discriminate. Qed.
+
+Lemma Frames_start : forall p G, Frames p G -> jp_cur p = jStart -> G = [] /\ jp_states p = [].
+Proof.
+  intros p G [(A & B & C)|[(f & G' & A & B & C & D)|(A & B & C)]] Hc.
+  - auto.
+  - exfalso. rewrite Hc in B. destruct f as [d|d [k|]]; cbn in B; ust; lia.
+  - exfalso. rewrite Hc in A. unfold leafst in A. ust. lia.
+Qed.
+
+Lemma Frames_container : forall p G, Frames p G -> 2 <= jp_cur p <= 10 ->
+  exists f G', G = f :: G' /\ cur_frame (jp_cur p) f /\ jp_states p = rets G' /\ Forall takes G'.
+Proof.
+  intros p G [(A & B & C)|[H|(A & B & C)]] Hc.
+  - exfalso. ust. lia.
+  - exact H.
+  - exfalso. unfold leafst in A. ust. lia.
+Qed.
+
+Lemma Frames_leaf : forall p G, Frames p G -> leafst (jp_cur p) -> jp_states p = rets G /\ Forall takes G.
+Proof.
+  intros p G [(A & B & C)|[(f & G' & A & B & C & D)|(A & B & C)]] Hc.
+  - exfalso. unfold leafst in Hc. ust. lia.
+  - exfalso. unfold leafst in Hc. destruct f as [d|d [k|]]; cbn in B; ust; lia.
+  - auto.
+Qed.
+
+Definition arrive (t : tree) (G : list frame) : list frame :=
+  match G with
+  | FA done :: G' => FA (t :: done) :: G'
+  | FO done (Some k) :: G' => FO ((k, true, t) :: done) None :: G'
+  | _ => G
+  end.
+
+Lemma oevents_arrive : forall t G, G <> [] -> Forall takes G -> oevents (arrive t G) = oevents G ++ flatten t.
+Proof.
+  intros t [|[done|done [k|]] G'] Hn HF; [congruence| | |].
+  - cbn [arrive oevents fevents rev]. unfold flatten_elems. rewrite flat_map_app. cbn [flat_map].
+    repeat (rewrite <- app_assoc || rewrite app_nil_r || rewrite <- app_comm_cons). reflexivity.
+  - cbn [arrive oevents fevents rev]. unfold flatten_members. rewrite flat_map_app. cbn [flat_map key_event].
+    repeat (rewrite <- app_assoc || rewrite app_nil_r || rewrite <- app_comm_cons). reflexivity.
+  - inversion HF; subst. contradiction.
+Qed.
+
+(* a value has been completed and the parser pops to the state it returns to *)
+Lemma pop_arrive : forall q G t, jp_states q = rets G -> Forall takes G ->
+  (G = [] -> Frames (jpop q) [] /\ jp_states (jpop q) = []) /\
+  (G <> [] -> Frames (jpop q) (arrive t G) /\ jp_states (jpop q) <> []).
+Proof.
+  intros q G t Hs HF. unfold jpop. rewrite Hs. split.
+  - intros ->. cbn [rets map app]. jsimp. split; [|reflexivity]. left. auto.
+  - intros Hn. destruct G as [|f G']; [congruence|]. cbn [rets map app]. jsimp.
+    split; [|apply rets_nonempty]. right; left.
+    inversion HF as [|? ? Hf HF']; subst.
+    destruct f as [done|done [k|]]; cbn [arrive fret]; [| |contradiction].
+    + exists (FA (t :: done)), G'. split; [reflexivity|]. split; [cbn; auto|]. split; [reflexivity|exact HF'].
+    + exists (FO ((k, true, t) :: done) None), G'. split; [reflexivity|]. split; [cbn; auto|]. split; [reflexivity|exact HF'].
+Qed.
+
+(* the outcome of a step in terms of the ghost state *)
+Definition Fout (G : list frame) (s : sink) (r : jsres) : Prop :=
+  match r with
+  | JCrash _ => True
+  | JS p1 s1 rest rep e => e = jpnil ->
+      exists l G1, s1 = s_add s l /\ Frames p1 G1 /\
+        ((oevents G1 = oevents G ++ l /\ (jp_states p1 = [] -> l = [])) \/
+         (jp_states p1 = [] /\ l <> [] /\ exists t, oevents G ++ l = flatten t))
+  end.
+
+Lemma Fout_err : forall G s p1 s1 rest rep e, e <> jpnil -> Fout G s (JS p1 s1 rest rep e).
+Proof. intros. cbn [Fout]. intros; contradiction. Qed.
+
+Lemma Fout_silent : forall G s p1 rest rep, Frames p1 G -> Fout G s (JS p1 s rest rep jpnil).
+Proof.
+  intros G s p1 rest rep HF. cbn [Fout]. intros _. exists [], G. rewrite s_add_nil, app_nil_r.
+  split; [reflexivity|]. split; [exact HF|]. left. auto.
+Qed.
+
+Lemma Fout_pop : forall G s q s1 rest rep t l,
+  jp_states q = rets G -> Forall takes G -> l <> [] -> s1 = s_add s l -> l = flatten t ->
+  Fout G s (JS (jpop q) s1 rest rep jpnil).
+Proof.
+  intros G s q s1 rest rep t l Hs HF Hl -> ->. cbn [Fout]. intros _.
+  destruct (pop_arrive q G t Hs HF) as [P0 P1].
+  destruct G as [|f G'].
+  - destruct (P0 eq_refl) as [A B]. exists (flatten t), []. split; [reflexivity|]. split; [exact A|].
+    right. split; [exact B|]. split; [exact Hl|]. exists t. reflexivity.
+  - destruct P1 as [A B]; [discriminate|]. exists (flatten t), (arrive t (f :: G')).
+    split; [reflexivity|]. split; [exact A|]. left. split; [apply oevents_arrive; [discriminate|exact HF]|].
+    intros K. contradiction.
+Qed.
+
+Lemma flatten_val : forall sc, flatten (TVal sc false) = [EVal sc].
+Proof. intros [| | |]; reflexivity. Qed.
+
+(* leaves: either nothing happens to the control state, or one scalar is delivered and the state popped *)
+Definition Lout (q : jparser) (s : sink) (r : jsres) : Prop :=
+  match r with
+  | JCrash _ => True
+  | JS p1 s1 rest rep e => e = jpnil ->
+      (s1 = s /\ jp_cur p1 = jp_cur q /\ jp_states p1 = jp_states q) \/
+      (exists sc byref q', s1 = s_add s (flatten (TVal sc byref)) /\ p1 = jpop q' /\ jp_states q' = jp_states q)
+  end.
+
+Lemma flatten_tval_nonempty : forall sc byref, flatten (TVal sc byref) <> [].
+Proof. intros [| |x|] [|]; discriminate. Qed.
+
+Lemma Lout_Fout : forall q G s r, Lout q s r -> leafst (jp_cur q) -> jp_states q = rets G -> Forall takes G ->
+  Fout G s r.
+Proof.
+  intros q G s [p1 s1 rest rep e|w] H Hq Hs HF; [|exact I]. cbn [Lout Fout] in *. intros He.
+  destruct (H He) as [(-> & A & B)|(sc & byref & q' & -> & -> & B)].
+  - exists [], G. rewrite s_add_nil, app_nil_r. split; [reflexivity|]. split; [|left; auto].
+    right; right. rewrite A, B. auto.
+  - assert (K : Fout G s (JS (jpop q') (s_add s (flatten (TVal sc byref))) rest rep jpnil)).
+    { eapply Fout_pop; [rewrite B; exact Hs|exact HF|apply flatten_tval_nonempty|reflexivity|reflexivity]. }
+    exact (K eq_refl).
+Qed.
+
+Lemma jvis_add' : forall s ev s1 e, jvis s ev = (s1, e) -> s1 = s_add s [ev].
+Proof. intros s ev s1 e H. destruct (jvis_add s ev) as [e' H']. rewrite H' in H. inversion H. reflexivity. Qed.
+
+Lemma step_kind_L : forall p s b kind sc, Lout p s (step_kind p s b kind (EVal sc)).
+Proof.
+  intros p s b kind sc. unfold step_kind. destruct (_ || _); [exact I|]. cbv zeta.
+  destruct (negb (zlen b <? jp_req p)).
+  - destruct (negb (has_prefix _ _)); [cbn [Lout]; intros He; ust; lia|].
+    destruct (jvis s (EVal sc)) as [s2 e] eqn:Ev. apply jvis_add' in Ev. cbn [Lout]. intros _.
+    right. exists sc, false, p. rewrite flatten_val. auto.
+  - destruct (negb (has_prefix _ _)); [cbn [Lout]; intros He; ust; lia|].
+    cbn [Lout]. intros _. left. jsimp. auto.
+Qed.
+
+Lemma step_string_L : forall p s b, Lout p s (step_string p s b).
+Proof.
+  intros p s b. unfold step_string. pose proof (do_string_W p b) as D.
+  destruct (do_string p b) as [p1|p1 content rest|p1|w]; [| | |exact I].
+  - destruct D as [D1 D2]. cbn [Lout]. intros _. left. auto.
+  - destruct D as (D1 & D2 & _). destruct (jvis s (EStrRef content)) as [s1 e] eqn:Ev. apply jvis_add' in Ev.
+    cbn [Lout]. intros _. right. exists (SStr content), true, p1. auto.
+  - cbn [Lout]. intros He. ust. lia.
+Qed.
+
+Lemma report_number_ev : forall s b dbl s1, report_number pf s b dbl = Some (s1, jpnil) ->
+  exists k z, s1 = s_add s [EVal (SNum k z)].
+Proof.
+  intros s b dbl s1. unfold report_number.
+  assert (G : forall k z, (let '(s2, e2) := jvis s (EVal (SNum k z)) in Some (s2, e2)) = Some (s1, jpnil) ->
+              exists k z, s1 = s_add s [EVal (SNum k z)]).
+  { intros k z. destruct (jvis s (EVal (SNum k z))) as [s2 e2] eqn:Ev. apply jvis_add' in Ev.
+    intros [= <- _]. eauto. }
+  assert (G0 : Some (s, jeGeneric) = Some (s1, jpnil) -> exists k z, s1 = s_add s [EVal (SNum k z)]).
+  { intros H. assert (K : jeGeneric = jpnil) by congruence. ust. lia. }
+  destruct dbl.
+  - destruct (pf b); [apply G|apply G0].
+  - destruct b as [|c r]; [discriminate|].
+    destruct (parse_uint _ _); [|apply G0].
+    destruct (_ && _); [apply G|]. destruct (_ && _); [apply G0|apply G].
+Qed.
+
+Lemma step_number_L : forall p s b, Lout p s (step_number pf p s b).
+Proof.
+  intros p s b. unfold step_number. destruct (scan_number b (jp_isdbl p) 0) as [found dbl].
+  destruct found as [i|]; jsimp.
+  - destruct (report_number pf s _ dbl) as [[s1 e]|] eqn:Er; [|exact I].
+    cbn [Lout]. intros ->. destruct (report_number_ev _ _ _ _ Er) as (k & z & ->).
+    right. exists (SNum k z), false, (jset_lit (jset_isdbl p dbl) []). rewrite flatten_val. jsimp. auto.
+  - cbn [Lout]. intros _. left. jsimp. auto.
+Qed.
+
+(* containers *)
+Lemma cur_frame_arr : forall c f, cur_frame c f -> c = jArr \/ c = jArrValue \/ c = jArrNext -> exists done, f = FA done.
+Proof. intros c [d|d [k|]] H Hc; cbn in H; [eauto| |]; exfalso; ust; lia. Qed.
+Lemma cur_frame_obj : forall c f, cur_frame c f ->
+  c = jDict \/ c = jDictNextField \/ c = jDictField \/ c = jDictFieldStateEnd -> exists done, f = FO done None.
+Proof. intros c [d|d [k|]] H Hc; cbn in H; [| |eauto]; exfalso; ust; lia. Qed.
+Lemma cur_frame_key : forall c f, cur_frame c f ->
+  c = jDictFieldValueSep \/ c = jDictFieldValue -> exists done k, f = FO done (Some k).
+Proof. intros c [d|d [k|]] H Hc; cbn in H; [|eauto|]; exfalso; ust; lia. Qed.
+
+Lemma end_arr_F : forall p s b done G',
+  jp_states p = rets G' -> Forall takes G' ->
+  Fout (FA done :: G') s (end_container p s b EArrEnd).
+Proof.
+  intros p s b done G' Hs HF. unfold end_container. destruct b as [|c r]; [exact I|].
+  destruct (jvis s EArrEnd) as [s1 e] eqn:Ev. apply jvis_add' in Ev. subst s1. cbn [Fout]. intros ->.
+  set (t := TArr (-1) BAny (rev done)).
+  destruct (pop_arrive p G' t Hs HF) as [P0 P1]. exists [EArrEnd].
+  destruct G' as [|f G''].
+  - destruct (P0 eq_refl) as [A B]. exists []. split; [reflexivity|]. split; [exact A|].
+    right. split; [exact B|]. split; [discriminate|]. exists t. unfold t. rewrite flatten_arr.
+    cbn [oevents fevents app]. reflexivity.
+  - destruct P1 as [A B]; [discriminate|]. exists (arrive t (f :: G'')).
+    split; [reflexivity|]. split; [exact A|]. left. split; [|intros K; contradiction].
+    rewrite oevents_arrive by (try discriminate; exact HF). unfold t. rewrite flatten_arr.
+    cbn [oevents fevents]. repeat (rewrite <- app_assoc || rewrite app_nil_r || rewrite <- app_comm_cons). reflexivity.
+Qed.
+
+Lemma end_obj_F : forall p s b done G',
+  jp_states p = rets G' -> Forall takes G' ->
+  Fout (FO done None :: G') s (end_container p s b EObjEnd).
+Proof.
+  intros p s b done G' Hs HF. unfold end_container. destruct b as [|c r]; [exact I|].
+  destruct (jvis s EObjEnd) as [s1 e] eqn:Ev. apply jvis_add' in Ev. subst s1. cbn [Fout]. intros ->.
+  set (t := TObj (-1) BAny (rev done)).
+  destruct (pop_arrive p G' t Hs HF) as [P0 P1]. exists [EObjEnd].
+  destruct G' as [|f G''].
+  - destruct (P0 eq_refl) as [A B]. exists []. split; [reflexivity|]. split; [exact A|].
+    right. split; [exact B|]. split; [discriminate|]. exists t. unfold t. rewrite flatten_obj.
+    cbn [oevents fevents app]. rewrite app_nil_r. reflexivity.
+  - destruct P1 as [A B]; [discriminate|]. exists (arrive t (f :: G'')).
+    split; [reflexivity|]. split; [exact A|]. left. split; [|intros K; contradiction].
+    rewrite oevents_arrive by (try discriminate; exact HF). unfold t. rewrite flatten_obj.
+    cbn [oevents fevents]. repeat (rewrite <- app_assoc || rewrite app_nil_r || rewrite <- app_comm_cons). reflexivity.
+Qed.
+
+Lemma Frames_set_cur : forall p c f G', cur_frame c f -> jp_states p = rets G' -> Forall takes G' ->
+  Frames (jset_cur p c) (f :: G').
+Proof. intros p c f G' Hc Hs HF. right; left. exists f, G'. jsimp. auto. Qed.
+
+(* a value starts in a context that can take one *)
+Lemma step_value_F : forall p s b ret G,
+  Frames p G -> ret :: jp_states p = rets G -> Forall takes G -> (ret =? jFailed) = false ->
+  Fout G s (step_value pf p s b ret).
+Proof.
+  intros p s b ret G HFr Hs HF Hne. unfold step_value.
+  destruct (trim_left b) as [|c r]; [apply Fout_silent; exact HFr|]. cbv zeta.
+  assert (Hst : forall (q : jparser), jp_states q = (if ret =? jFailed then jp_states p else ret :: jp_states p) ->
+                  jp_states q = rets G) by (intros q ->; rewrite Hne; exact Hs).
+  destruct (c =? 123).
+  { destruct (jvis s (EObjStart (-1) BAny)) as [s1 e] eqn:Ev. apply jvis_add' in Ev. subst s1.
+    cbn [Fout]. intros ->. exists [EObjStart (-1) BAny], (FO [] None :: G). split; [reflexivity|].
+    split; [|left; split; [reflexivity|]; intros K; jpsimp; rewrite Hne, Hs in K; exfalso; exact (rets_nonempty _ K)].
+    right; left. exists (FO [] None), G. jpsimp. split; [reflexivity|]. split; [cbn; auto|]. split; [rewrite Hne; exact Hs|exact HF]. }
+  destruct (c =? 91).
+  { destruct (jvis s (EArrStart (-1) BAny)) as [s1 e] eqn:Ev. apply jvis_add' in Ev. subst s1.
+    cbn [Fout]. intros ->. exists [EArrStart (-1) BAny], (FA [] :: G). split; [reflexivity|].
+    split; [|left; split; [reflexivity|]; intros K; jpsimp; rewrite Hne, Hs in K; exfalso; exact (rets_nonempty _ K)].
+    right; left. exists (FA []), G. jpsimp. split; [reflexivity|]. split; [cbn; auto|]. split; [rewrite Hne; exact Hs|exact HF]. }
+  destruct (c =? 110).
+  { eapply Lout_Fout; [apply step_kind_L|jpsimp; unfold leafst; auto|jpsimp; rewrite Hne; exact Hs|exact HF]. }
+  destruct (c =? 102).
+  { eapply Lout_Fout; [apply step_kind_L|jpsimp; unfold leafst; auto|jpsimp; rewrite Hne; exact Hs|exact HF]. }
+  destruct (c =? 116).
+  { eapply Lout_Fout; [apply step_kind_L|jpsimp; unfold leafst; auto|jpsimp; rewrite Hne; exact Hs|exact HF]. }
+  destruct (c =? 34).
+  { eapply Lout_Fout; [apply step_string_L|jpsimp; unfold leafst; auto|jpsimp; rewrite Hne; exact Hs|exact HF]. }
+  destruct (_ || _).
+  { eapply Lout_Fout; [apply step_number_L|jpsimp; unfold leafst; auto 6|jpsimp; rewrite Hne; exact Hs|exact HF]. }
+  apply Fout_err. ust; lia.
+Qed.
+
+Lemma Fout_norep : forall G s r, Fout G s r ->
+  Fout G s (match r with JS p1 s1 r0 _ e => JS p1 s1 r0 false e | JCrash x => JCrash x end).
+Proof. intros G s [p1 s1 r0 rep e|x] H; exact H. Qed.
+
+Lemma jstep_F : forall p s b G, W p -> Frames p G -> Fout G s (jstep pf p s b).
+Proof.
+  intros p s b G Hw HFr.
+  pose proof Hw as (Hwf & _ & _). pose proof (wfs_range _ _ Hwf) as Hrg.
+  destruct (cur_cases (jp_cur p)) as
+    [Hc|[Hc|[Hc|[Hc|[Hc|[Hc|[Hc|[Hc|[Hc|[Hc|[Hc|[Hc|[Hc|[Hc|[Hc|[Hc|Hc]]]]]]]]]]]]]]]];
+    try (exfalso; ust; lia).
+  - (* jStart *)
+    destruct (Frames_start _ _ HFr Hc) as [-> Hs].
+    rewrite (jstep_start pf p s b Hc). apply step_value_F; auto. rewrite Hs. reflexivity.
+  - (* jArr *)
+    destruct (Frames_container _ _ HFr) as (f & G' & -> & Hcf & Hs & HF); [rewrite Hc; ust; lia|].
+    destruct (cur_frame_arr _ _ Hcf) as [done ->]; [rewrite Hc; auto|].
+    rewrite (jstep_arr pf p s b Hc). unfold step_array.
+    destruct (trim_left b) as [|c r]; [apply Fout_silent; exact HFr|].
+    destruct (c =? 93); [apply end_arr_F; auto|].
+    apply Fout_silent. apply Frames_set_cur; auto. cbn; auto.
+  - (* jArrValue *)
+    destruct (Frames_container _ _ HFr) as (f & G' & -> & Hcf & Hs & HF); [rewrite Hc; ust; lia|].
+    destruct (cur_frame_arr _ _ Hcf) as [done ->]; [rewrite Hc; auto|].
+    rewrite (jstep_arrvalue pf p s b Hc).
+    apply (Fout_norep _ _ (step_value pf p s b jArrNext)).
+    apply step_value_F; auto.
+    + rewrite Hs. reflexivity.
+    + constructor; [exact I|exact HF].
+  - (* jArrNext *)
+    destruct (Frames_container _ _ HFr) as (f & G' & -> & Hcf & Hs & HF); [rewrite Hc; ust; lia|].
+    destruct (cur_frame_arr _ _ Hcf) as [done ->]; [rewrite Hc; auto|].
+    rewrite (jstep_arrnext pf p s b Hc). unfold step_arr_value_end.
+    destruct (trim_left b) as [|c r]; [apply Fout_silent; exact HFr|].
+    destruct (c =? 93); [apply end_arr_F; auto|].
+    destruct (c =? 44); [|apply Fout_err; ust; lia].
+    apply Fout_silent. apply Frames_set_cur; auto. cbn; auto.
+  - (* jDict *)
+    destruct (Frames_container _ _ HFr) as (f & G' & -> & Hcf & Hs & HF); [rewrite Hc; ust; lia|].
+    destruct (cur_frame_obj _ _ Hcf) as [done ->]; [rewrite Hc; auto|].
+    rewrite (jstep_dict pf p s b Hc). unfold step_dict.
+    destruct (trim_left b) as [|c r]; [apply Fout_silent; exact HFr|].
+    destruct (c =? 125); [cbn [negb]; apply end_obj_F; auto|].
+    destruct (c =? 34); [|apply Fout_err; ust; lia].
+    apply Fout_silent. apply Frames_set_cur; auto. cbn; auto.
+  - (* jDictField: the key *)
+    destruct (Frames_container _ _ HFr) as (f & G' & -> & Hcf & Hs & HF); [rewrite Hc; ust; lia|].
+    destruct (cur_frame_obj _ _ Hcf) as [done ->]; [rewrite Hc; auto|].
+    rewrite (jstep_dictfield pf p s b Hc). unfold step_dict_key. pose proof (do_string_W p b) as D.
+    destruct (do_string p b) as [p1|p1 content rest|p1|w]; [| | |exact I].
+    + destruct D as [D1 D2]. apply Fout_silent. right; left. exists (FO done None), G'.
+      rewrite D1, D2. auto.
+    + destruct D as (D1 & D2 & _). destruct (jvis s (EKeyRef content)) as [s1 e] eqn:Ev. apply jvis_add' in Ev. subst s1.
+      cbn [Fout]. intros ->. exists [EKeyRef content], (FO done (Some content) :: G'). split; [reflexivity|].
+      split; [apply Frames_set_cur; [cbn; auto|rewrite D2; exact Hs|exact HF]|].
+      left. split; [cbn [oevents fevents]; repeat (rewrite <- app_assoc || rewrite app_nil_r || rewrite <- app_comm_cons); reflexivity|].
+      jsimp. rewrite D2, Hs. intros K. exfalso. exact (rets_nonempty _ K).
+    + apply Fout_err. ust; lia.
+  - (* jDictNextField *)
+    destruct (Frames_container _ _ HFr) as (f & G' & -> & Hcf & Hs & HF); [rewrite Hc; ust; lia|].
+    destruct (cur_frame_obj _ _ Hcf) as [done ->]; [rewrite Hc; auto|].
+    rewrite (jstep_dictnext pf p s b Hc). unfold step_dict.
+    destruct (trim_left b) as [|c r]; [apply Fout_silent; exact HFr|].
+    destruct (c =? 125); [cbn [negb]; apply Fout_err; ust; lia|].
+    destruct (c =? 34); [|apply Fout_err; ust; lia].
+    apply Fout_silent. apply Frames_set_cur; auto. cbn; auto.
+  - (* jDictFieldValue *)
+    destruct (Frames_container _ _ HFr) as (f & G' & -> & Hcf & Hs & HF); [rewrite Hc; ust; lia|].
+    destruct (cur_frame_key _ _ Hcf) as (done & k & ->); [rewrite Hc; auto|].
+    rewrite (jstep_dictvalue pf p s b Hc). apply step_value_F; auto.
+    + rewrite Hs. reflexivity.
+    + constructor; [exact I|exact HF].
+  - (* jDictFieldValueSep *)
+    destruct (Frames_container _ _ HFr) as (f & G' & -> & Hcf & Hs & HF); [rewrite Hc; ust; lia|].
+    destruct (cur_frame_key _ _ Hcf) as (done & k & ->); [rewrite Hc; auto|].
+    rewrite (jstep_sep pf p s b Hc).
+    destruct (trim_left b) as [|x r]; [apply Fout_silent; exact HFr|].
+    destruct (x =? 58); [|apply Fout_err; ust; lia].
+    apply Fout_silent. apply Frames_set_cur; auto. cbn; auto.
+  - (* jDictFieldStateEnd *)
+    destruct (Frames_container _ _ HFr) as (f & G' & -> & Hcf & Hs & HF); [rewrite Hc; ust; lia|].
+    destruct (cur_frame_obj _ _ Hcf) as [done ->]; [rewrite Hc; auto 6|].
+    rewrite (jstep_dictend pf p s b Hc). unfold step_dict_value_end.
+    destruct (trim_left b) as [|c r]; [apply Fout_silent; exact HFr|].
+    destruct (c =? 125); [apply end_obj_F; auto|].
+    destruct (c =? 44); [|apply Fout_err; ust; lia].
+    apply Fout_silent. apply Frames_set_cur; auto. cbn; auto.
+  - (* jNull *)
+    destruct (Frames_leaf _ _ HFr) as [Hs HF]; [rewrite Hc; unfold leafst; auto|].
+    rewrite (jstep_null pf p s b Hc). eapply Lout_Fout; [apply step_kind_L|rewrite Hc; unfold leafst; auto|exact Hs|exact HF].
+  - (* jTrue *)
+    destruct (Frames_leaf _ _ HFr) as [Hs HF]; [rewrite Hc; unfold leafst; auto|].
+    rewrite (jstep_true pf p s b Hc). eapply Lout_Fout; [apply step_kind_L|rewrite Hc; unfold leafst; auto|exact Hs|exact HF].
+  - (* jFalse *)
+    destruct (Frames_leaf _ _ HFr) as [Hs HF]; [rewrite Hc; unfold leafst; auto|].
+    rewrite (jstep_false pf p s b Hc). eapply Lout_Fout; [apply step_kind_L|rewrite Hc; unfold leafst; auto|exact Hs|exact HF].
+  - (* jString *)
+    destruct (Frames_leaf _ _ HFr) as [Hs HF]; [rewrite Hc; unfold leafst; auto|].
+    rewrite (jstep_string pf p s b Hc). eapply Lout_Fout; [apply step_string_L|rewrite Hc; unfold leafst; auto|exact Hs|exact HF].
+  - (* jNumber *)
+    destruct (Frames_leaf _ _ HFr) as [Hs HF]; [rewrite Hc; unfold leafst; auto 6|].
+    rewrite (jstep_number pf p s b Hc). eapply Lout_Fout; [apply step_number_L|rewrite Hc; unfold leafst; auto 6|exact Hs|exact HF].
+Qed.
+
+Lemma s_add_n : forall s l, s_n (s_add s l) <> s_n s <-> l <> [].
+Proof.
+  intros s l. cbn [s_add s_n]. destruct l; cbn [length]; split; intros H; try congruence; try lia; try discriminate.
+Qed.
+
+(* the inner loop: the events it delivers extend the open frames, and when it reports
+   a value (at the top level) they complete one tree *)
+Lemma jfeed_until_F : forall fuel p s b orig p' s' rest rep G,
+  W p -> Frames p G -> jfeed_until fuel pf p s b orig = Ok (JS p' s' rest rep jpnil) ->
+  exists L G1, s' = s_add s L /\ Frames p' G1 /\ W p' /\
+    (rep = false -> oevents G1 = oevents G ++ L) /\
+    (rep = true -> exists t, oevents G ++ L = flatten t).
+Proof.
+  induction fuel as [|f IH]; intros p s b orig p' s' rest rep G Hw HFr H; [discriminate|].
+  cbn [jfeed_until] in H.
+  destruct (zlen b =? 0).
+  { inversion H; subst. exists [], G. rewrite s_add_nil, app_nil_r. split; [reflexivity|].
+    split; [exact HFr|]. split; [exact Hw|]. split; [auto|discriminate]. }
+  pose proof (jstep_F p s b G Hw HFr) as F.
+  destruct (jstep pf p s b) as [p1 s1 r1 rep1 err|w] eqn:Hx; [|discriminate].
+  rewrite (W_notfailed p Hw) in H.
+  destruct (jisnil err) eqn:Ee; cbn [negb] in H; [|inversion H; subst; vm_compute in Ee; discriminate Ee].
+  apply jisnil_true' in Ee. subst err. cbn [Fout] in F.
+  destruct (F eq_refl) as (l & G1 & -> & HFr1 & Hd).
+  pose proof (jstep_W _ _ _ _ _ _ _ Hw Hx) as Hw1.
+  pose proof (rep1_char _ _ _ _ _ _ _ Hw Hx) as Hc. unfold tdone in Hc. rewrite s_add_n in Hc.
+  destruct (rep1 && (zlen (jp_states p1) =? 0)) eqn:Er.
+  - inversion H; subst. destruct (proj1 Hc eq_refl) as [Hs Hl].
+    exists l, G1. split; [reflexivity|]. split; [exact HFr1|]. split; [exact Hw1|]. split; [discriminate|].
+    intros _. destruct Hd as [[_ Hd]|(_ & _ & Hd)]; [exfalso; apply Hl; apply Hd; exact Hs|exact Hd].
+  - assert (Hd1 : oevents G1 = oevents G ++ l).
+    { destruct Hd as [[Hd _]|(Hs & Hl & _)]; [exact Hd|].
+      exfalso. assert (K : false = true) by (apply Hc; auto). discriminate K. }
+    destruct (IH _ _ _ _ _ _ _ _ _ Hw1 HFr1 H) as (L & G2 & -> & HFr2 & Hw2 & A & B).
+    exists (l ++ L), G2. split; [apply s_add_add|]. split; [exact HFr2|]. split; [exact Hw2|]. split.
+    + intros Hr. rewrite (A Hr), Hd1, app_assoc. reflexivity.
+    + intros Hr. destruct (B Hr) as [t Ht]. exists t. rewrite <- Ht, Hd1, app_assoc. reflexivity.
+Qed.
+
+Lemma rets_single : forall G c, rets G = [c] -> G = [].
+Proof. intros [|f G] c H; [reflexivity|]. unfold rets in H. cbn [map app] in H. inversion H. destruct (map fret G); discriminate. Qed.
+
+(* the number that finalize reports at the end of the input is a top-level value *)
+Lemma jdec_finalize_F : forall d s d' s' G,
+  W (jd_p d) -> Frames (jd_p d) G -> jdec_finalize pf d s = Ok (d', s', jpnil) ->
+  G = [] /\ exists k z, s' = s_add s [EVal (SNum k z)].
+Proof.
+  intros d s d' s' G Hw HFr H. unfold jdec_finalize in H.
+  destruct (jfinalize pf (jd_p d) s) as [[[p1 s1] e]|] eqn:Ef; [|discriminate].
+  destruct (negb (jisnil e)) eqn:En; [inversion H; subst; vm_compute in En; discriminate En|].
+  apply negb_false_iff, jisnil_true' in En. subst e.
+  destruct (jp_cur (jd_p d) =? jNumber) eqn:Ec; [|inversion H; ust; lia].
+  apply Z.eqb_eq in Ec. inversion H; subst d' s'. clear H.
+  destruct (jfinalize_idle _ _ _ _ Hw Ef) as ((_ & Hs1 & _) & [(K & _)|(_ & Hp & _)]); [contradiction|].
+  destruct (Frames_leaf _ _ HFr) as [Hs _]; [rewrite Ec; unfold leafst; auto 6|].
+  split.
+  - subst p1. unfold jpop in Hs1. destruct (jp_states (jd_p d)) as [|c r] eqn:Es.
+    + exfalso. symmetry in Hs. exact (rets_nonempty _ Hs).
+    + jsimp. subst r. symmetry in Hs. eapply rets_single; eauto.
+  - unfold jfinalize in Ef. rewrite Ec in Ef. change (jNumber =? jNumber) with true in Ef. cbv iota in Ef.
+    destruct (report_number pf s _ _) as [[s2 e2]|] eqn:Er; [|discriminate].
+    destruct (jisnil e2) eqn:E2; cbn [negb] in Ef; [|inversion Ef; subst; vm_compute in E2; discriminate E2].
+    apply jisnil_true' in E2. subst e2.
+    destruct (report_number_ev _ _ _ _ Er) as (k & z & ->).
+    destruct (_ && _); inversion Ef; subst; eauto.
+Qed.
+
+(* C18 (b), the shape of the delivered events: a Next that returns nil has delivered
+   exactly the events of one tree (started from a parser between two values) *)
+Lemma jdec_next_F : forall fuel d s d' s' G,
+  W (jd_p d) -> Frames (jd_p d) G -> jscript_ok (jd_script d) ->
+  jdec_next fuel pf d s = Ok (d', s', jpnil) ->
+  exists L t, s' = s_add s L /\ oevents G ++ L = flatten t.
+Proof.
+  induction fuel as [|f IH]; intros d s d' s' G Hw HFr Hsc H; [discriminate|].
+  rewrite jdec_next_S in H. pose proof (jdec_fill_spec d) as Hf.
+  pose proof (jdec_fill_script d Hsc) as Hsc1.
+  destruct (jdec_fill d) as [d1|d1|d1 e].
+  - destruct Hf as [Hp _]. unfold jdec_body in H.
+    destruct (jfeed_until _ pf _ _ _ _) as [[p1 s1 rest rep err|w]| | |] eqn:Hfu; try discriminate.
+    destruct (jisnil err) eqn:Ee; cbn [negb] in H; [|inversion H; subst; vm_compute in Ee; discriminate Ee].
+    apply jisnil_true' in Ee. subst err. rewrite Hp in Hfu.
+    destruct (jfeed_until_F _ _ _ _ _ _ _ _ _ _ Hw HFr Hfu) as (L1 & G1 & -> & HFr1 & Hw1 & A & B).
+    destruct rep.
+    + inversion H; subst. destruct (B eq_refl) as [t Ht]. exists L1, t. auto.
+    + match type of H with jdec_next f pf ?d2 _ = _ =>
+        destruct (IH d2 _ _ _ G1 Hw1 HFr1 Hsc1 H) as (L2 & t & -> & Ht) end.
+      exists (L1 ++ L2), t. split; [apply s_add_add|]. rewrite <- Ht, (A eq_refl), app_assoc. reflexivity.
+  - destruct Hf as (Hp & _). rewrite <- Hp in Hw, HFr.
+    destruct (jdec_finalize_F _ _ _ _ _ Hw HFr H) as (-> & k & z & ->).
+    exists [EVal (SNum k z)], (TVal (SNum k z) false). auto.
+  - inversion H; subst. destruct Hf as (_ & _ & _ & r & Hs). rewrite Hs in Hsc. inversion Hsc; subst.
+    exfalso. cbn [snd] in *. congruence.
+Qed.
+
+Theorem C18_json_next_tree : forall fuel d s d' s',
+  W (jd_p d) -> jp_cur (jd_p d) = jStart -> jscript_ok (jd_script d) ->
+  jdec_next fuel pf d s = Ok (d', s', jpnil) ->
+  exists t, s' = s_add s (flatten t).
+Proof.
+  intros fuel d s d' s' Hw Hc Hsc H.
+  assert (HFr : Frames (jd_p d) []).
+  { left. split; [reflexivity|]. split; [exact Hc|]. apply wfs_start. rewrite <- Hc. apply Hw. }
+  destruct (jdec_next_F _ _ _ _ _ _ Hw HFr Hsc H) as (L & t & -> & Ht). exists t. rewrite <- Ht. reflexivity.
+Qed.
+
+(* the same for the push parser: the events of an accepted one-value input read by
+   feedUntil up to the report of the top-level value *)
+Theorem C18_json_feed_until_tree : forall fuel s b orig p' s' rest,
+  jfeed_until fuel pf jparser0 s b orig = Ok (JS p' s' rest true jpnil) ->
+  exists t, s' = s_add s (flatten t).
+Proof.
+  intros fuel s b orig p' s' rest H.
+  assert (HFr : Frames jparser0 []) by (left; auto).
+  destruct (jfeed_until_F _ _ _ _ _ _ _ _ _ _ W0 HFr H) as (L & G1 & -> & _ & _ & _ & B).
+  destruct (B eq_refl) as [t Ht]. exists t. rewrite <- Ht. reflexivity.
+Qed.
+
 End JsonVisitor.
 
 (* The Write flavour of C17 needs the side condition jp_lit p = []: finalize reports a
@@ -2750,3 +3262,5 @@ Print Assumptions C18_json_run_script_independent_partial.
 Print Assumptions C18_json_run_total.
 Print Assumptions C18_json_reader_as_bytes_partial.
 Print Assumptions C18_json_scripts_same_data.
+Print Assumptions C18_json_next_tree.
+Print Assumptions C18_json_feed_until_tree.
